@@ -28,6 +28,7 @@ C19-a layout agreement (byte-layout extraction) for the ext4 inode (split uid/gi
 C19-b frame conditions: ext4 Chmod stores only permission fields of the inode, Chown only owner/group, Chtimes only the three time fields; the FAT attribute setters store only their own flag.
 C19-c type mappings are total: the file-type switch tables that translate on-disk types to modes and back have a case for every type constant; wherever a mode is compared with an os.Mode* type constant it has been reduced to its type bits first (m & T, m & os.ModeType, m.Type()).
 C19-d the packed DOS date and time words: the decoder takes each component from the bit offset where the encoder puts it, with a mask exactly as wide as the field.
+C19-f the FAT attribute byte (11) and case byte (12) are built from single-bit updates; the set of values the encoder can leave in the byte is closed under OR with every caller-settable flag bit (read-only, hidden, system, archive; the two case bits), so no combination of flags loses a member when a directory is written.
 Not covered: representable ranges (pre-1980 FAT dates), the 59/60-byte symlink boundary, collection of host metadata at finalize time.`)
 }
 
